@@ -3,7 +3,8 @@
   Property theorems only (helper lemmas live in CB/Lemmas/C03*.lean).  Every theorem quantifies
   over all limb counts (list lengths) and all operand values unless a size is named.
 -/
-import CB.Lemmas.C03Kara
+import CB.Lemmas.C03Boxed
+import CB.Lemmas.C03Int
 namespace CB.P03
 open CB CB.Mul CB.Karatsuba
 
@@ -180,6 +181,177 @@ theorem uint_mul_forms (x y : List Nat) (hx : WF x) (hy : WF y) :
     val (saturatingOfPair (splitMul x y)) = min (val x * val y) (B ^ x.length - 1) :=
   let h := split_mul_exact x y hx hy
   ⟨h.concat.1, h.wrapping, h.checked.1, h.checked.2, h.saturating⟩
+
+/-! ### T03.6 fixed-size Karatsuba squaring -/
+
+/-- a squaring routine exact on `h`-limb inputs gives, through one `reduce` level of
+    `UintKaratsubaMul::square`, the exact square of every `2h`-limb input: the carry dropped by
+    `(res.3, _) = z2.1.adc(&ZERO, carry + carry2)` and the final borrow dropped by the last `sbb` are 0,
+    and `carry.wrapping_add(carry2)` does not wrap. -/
+theorem kara_sq_step_exact (h : Nat) (f : List Nat → List Nat × List Nat) (hf : ExactSq h f)
+    (x : List Nat) (hx : WF x) (hlx : x.length = 2 * h) :
+    ExactPair (karaSqStep h f x) (2 * h) (2 * h) (val x * val x) := karaSqStep_spec h f hf x hx hlx
+
+/-- the dropped carry and borrow of the squaring recombination are 0 -/
+theorem kara_sq_step_dropped_zero {h : Nat} {z0 z2 z1 : List Nat × List Nat} {P0 P2 P1 Q : Nat}
+    (hz0 : ExactPair z0 h h P0) (hz2 : ExactPair z2 h h P2) (hz1 : ExactPair z1 h h P1)
+    (hfit : (1 + B ^ h) * (P0 + B ^ h * P2) < B ^ h * B ^ h * B ^ h * B ^ h)
+    (hid : (1 + B ^ h) * (P0 + B ^ h * P2) = Q + B ^ h * P1) :
+    (sqChain h z0 z2 z1).2.1 = 0 ∧ (sqChain h z0 z2 z1).2.2 / HALF = 0 :=
+  (sqChain_spec hz0 hz2 hz1 hfit hid).2
+
+/-- T03.6 `UintKaratsubaMul::<n>::square` from the extracted chain `128, 64, 32` is exact at every size -/
+theorem kara_sq_chain_exact (n : Nat) : ExactSq n (karaSqChain (chainFrom n karaSqSizes)) :=
+  karaSqChain_from_exact karaSqSizes_halving n
+
+/-- T03.6 `Uint::square_wide` (schoolbook, or Karatsuba at the widths the source tests for) is the exact
+    square for ALL limb counts. -/
+theorem square_wide_exact (x : List Nat) (hx : WF x) :
+    ExactPair (squareWide x) x.length x.length (val x * val x) := by
+  unfold squareWide
+  split
+  · exact kara_sq_chain_exact x.length x hx rfl
+  · exact uint_square_limbs_exact x hx
+
+theorem square_wide_dispatch_widths : squareWideDispatchSizes = [128, 64] ∧ karaSqSizes = [128, 64, 32] := by
+  decide
+
+/-- squaring always equals multiplying the value by itself: `square_wide x = split_mul x x`, limb for
+    limb, at every width (whatever algorithms the two dispatches pick) -/
+theorem square_wide_eq_split_mul_self (x : List Nat) (hx : WF x) : squareWide x = splitMul x x := by
+  have a := square_wide_exact x hx
+  have b := split_mul_exact x x hx hx
+  have e1 : (squareWide x).1 = (splitMul x x).1 :=
+    val_inj a.1 b.1 (by rw [a.2.2.1, b.2.2.1]) (by rw [a.lo_eq, b.lo_eq])
+  have e2 : (squareWide x).2 = (splitMul x x).2 :=
+    val_inj a.2.1 b.2.1 (by rw [a.2.2.2.1, b.2.2.2.1]) (by rw [a.hi_eq, b.hi_eq])
+  exact Prod.ext e1 e2
+
+/-- T03.8 all squaring forms of `Uint` -/
+theorem uint_square_forms (x : List Nat) (hx : WF x) :
+    val (concatPair (squareWide x)) = val x * val x ∧
+    val (wrappingOfPair (squareWide x)) = (val x * val x) % B ^ x.length ∧
+    (checkedSquareOfPair (squareWide x)).2 = mask (decide (val x * val x < B ^ x.length)) ∧
+    (val x * val x < B ^ x.length → val (checkedSquareOfPair (squareWide x)).1 = val x * val x) ∧
+    val (saturatingOfPair (squareWide x)) = min (val x * val x) (B ^ x.length - 1) :=
+  let h := square_wide_exact x hx
+  ⟨h.concat.1, h.wrapping, h.checkedSquare.1, h.checkedSquare.2, h.saturating⟩
+
+/-! ### T03.7 boxed multiplication (`BoxedUint`)
+
+  FULL STATEMENT (unproved — and FALSE for the code as written, see `boxed_mul_not_exact`):
+    theorem boxed_mul_exact (x y : List Nat) (hx : WF x) (hy : WF y) :
+      val (boxedMul x y) = val x * val y ∧ WF (boxedMul x y) ∧ (boxedMul x y).length = x.length + y.length
+    theorem boxed_square_exact (x : List Nat) (hx : WF x) :
+      val (boxedSquare x) = val x * val x ∧ WF (boxedSquare x) ∧ (boxedSquare x).length = 2 * x.length
+  Proved below: the schoolbook route (min length < 32; squaring < 64 limbs), the threshold fallback
+  inside `karatsuba_mul_limbs` / `karatsuba_square_limbs` (recursion leaves), `adc_mul_limbs` on a buffer
+  whose upper part is still zero, the API shapes given an exact product (`H_mul`), and the NEGATION of
+  the full statement with its witness.  The recursive boxed Karatsuba bodies (sizes > 24 / > 48) are
+  tied to the oracle only by the correspondence run (L0 printed on every line). -/
+
+/-- `BoxedUint::mul` below the Karatsuba threshold (some operand shorter than
+    `KARATSUBA_MIN_STARTING_LIMBS`) is the exact product, all lengths incl. unequal and 0 -/
+theorem boxed_mul_small_exact (x y : List Nat) (hx : WF x) (hy : WF y)
+    (hs : min x.length y.length < Extracted.karatsubaMinStartingLimbs) :
+    val (boxedMul x y) = val x * val y ∧ WF (boxedMul x y) ∧
+    (boxedMul x y).length = x.length + y.length := by
+  unfold boxedMul
+  rw [if_neg (by omega)]
+  exact schoolbookMul_spec x y hx hy
+
+/-- `out.fill(ZERO); adc_mul_limbs(lhs, rhs, out)` — the fallback of `karatsuba_mul_limbs` — is the
+    schoolbook product and returns carry 0 (its `carry.wrapping_add(carry2)` is `0 + carry2` there) -/
+theorem adc_mul_limbs_zero_exact (x y : List Nat) (hx : WF x) (hy : WF y) :
+    adcMulLimbs x y (uzero (x.length + y.length)) = (schoolbookMul x y, 0) := adcMulLimbs_zero x y hx hy
+
+/-- `karatsuba_mul_limbs` at the recursion leaves (even-floored overlap ≤ `KARATSUBA_MAX_REDUCE_LIMBS`)
+    is exact, for every fuel -/
+theorem kara_mul_limbs_leaf_exact (fuel : Nat) (x y : List Nat) (hx : WF x) (hy : WF y)
+    (hs : (if min x.length y.length % 2 = 1 then min x.length y.length - 1 else min x.length y.length)
+      ≤ Extracted.karatsubaMaxReduceLimbs) :
+    val (karaMulLimbs fuel x y) = val x * val y ∧ WF (karaMulLimbs fuel x y) ∧
+    (karaMulLimbs fuel x y).length = x.length + y.length := by
+  have e : karaMulLimbs fuel x y = schoolbookMul x y := by
+    cases fuel with
+    | zero => simp only [karaMulLimbs]; rw [adcMulLimbs_zero x y hx hy]
+    | succ f =>
+      simp only [karaMulLimbs]
+      rw [if_pos hs, adcMulLimbs_zero x y hx hy]
+  rw [e]; exact schoolbookMul_spec x y hx hy
+
+/-- `adc_mul_limbs` is NOT exact on an arbitrary accumulator: with carry = 1 pending and
+    `carry2 = Limb::MAX`, `carry.wrapping_add(carry2)` wraps to 0 and `2^(64·k)` is lost. -/
+theorem adc_mul_limbs_not_exact_in_general :
+    val (adcMulLimbs [WMAX, WMAX] [WMAX, WMAX] [WMAX, WMAX, WMAX, WMAX]).1
+      + B ^ 4 * (adcMulLimbs [WMAX, WMAX] [WMAX, WMAX] [WMAX, WMAX, WMAX, WMAX]).2
+    ≠ val [WMAX, WMAX, WMAX, WMAX] + val [WMAX, WMAX] * val [WMAX, WMAX] := by decide
+
+set_option maxRecDepth 100000 in
+/-- NEGATION of the full boxed statement, with witness: for a 33-limb left operand and a 34-limb right
+    operand `BoxedUint::mul` (as the code computes it: the trailing `adc_mul_limbs(yt, x, …)` pass of
+    `karatsuba_mul_limbs`) does not return the product.  Finding C03-boxed-mul-trailing-carry. -/
+theorem boxed_mul_not_exact : val (boxedMul witnessLhs witnessRhs) ≠ val witnessLhs * val witnessRhs := by
+  decide +kernel
+
+/-- boxed API shapes, given an exact wide product: `wrapping_mul` = product mod `2^BITS(self)`;
+    `checked_mul` is `some` exactly when it fits (the `&a * &b` operator panics otherwise).
+    `H_mul` is discharged by `boxed_mul_small_exact` below the threshold; above it is exercised only. -/
+theorem boxed_forms_partial (x y : List Nat)
+    (H_mul : val (boxedMul x y) = val x * val y ∧ WF (boxedMul x y) ∧
+      (boxedMul x y).length = x.length + y.length) :
+    val (boxedWrappingMul x y) = (val x * val y) % B ^ x.length ∧
+    (boxedWrappingMul x y).length = x.length ∧
+    (boxedCheckedMul x y).2 = mask (decide (val x * val y < B ^ x.length)) ∧
+    (val x * val y < B ^ x.length → val (boxedCheckedMul x y).1 = val x * val y) := by
+  obtain ⟨h1, h2, h3⟩ := H_mul
+  have hp := exactPair_of_list (n := x.length) (m := y.length) h2 h3 h1
+  refine ⟨hp.lo_eq, hp.2.2.1, ?_, fun hlt => ?_⟩
+  · show allZeroMask ((boxedMul x y).drop x.length) = _
+    rw [allZeroMask_spec hp.2.1]; congr 1
+    simp only [hp.hi_zero_iff]
+  · show val ((boxedMul x y).take x.length) = _
+    rw [hp.lo_eq, Nat.mod_eq_of_lt hlt]
+
+/-- `BoxedUint::square` below `2·KARATSUBA_MIN_STARTING_LIMBS` limbs is the exact square -/
+theorem boxed_square_small_exact (x : List Nat) (hx : WF x)
+    (hs : x.length < Extracted.karatsubaMinStartingLimbs * Extracted.boxedSquareStartFactor) :
+    val (boxedSquare x) = val x * val x ∧ WF (boxedSquare x) ∧ (boxedSquare x).length = 2 * x.length := by
+  unfold boxedSquare
+  rw [if_neg (by omega)]
+  exact schoolbookSquare_spec x hx
+
+/-- `karatsuba_square_limbs` at its leaves (size ≤ 2·MAX_REDUCE or odd) is exact, for every fuel -/
+theorem kara_square_limbs_leaf_exact (fuel : Nat) (x : List Nat) (hx : WF x)
+    (hs : x.length ≤ Extracted.karatsubaMaxReduceLimbs * Extracted.karaSquareReduceFactor ∨ x.length % 2 = 1) :
+    val (karaSquareLimbs fuel x) = val x * val x ∧ WF (karaSquareLimbs fuel x) ∧
+    (karaSquareLimbs fuel x).length = 2 * x.length := by
+  have e : karaSquareLimbs fuel x = schoolbookSquare x := by
+    cases fuel with
+    | zero => rfl
+    | succ f => simp only [karaSquareLimbs]; rw [if_pos hs]
+  rw [e]; exact schoolbookSquare_spec x hx
+
+/-! ### `Int` products (sign–magnitude, `src/int/mul.rs`) -/
+
+/-- `Int::split_mul`: `(lo, hi)` is the exact product of the magnitudes `|a|·|b| = |a·b|` and `negate`
+    is set exactly when the operands' signs differ (as documented, also when the magnitude is zero).
+    The unsigned product inside is `split_mul_exact` (this property).
+    Not proved here: `Int::widening_mul` / `CheckedMul for Int` re-signing (`wrapping_neg_if`,
+    `new_from_abs_sign`) — exercised by the correspondence run against the `Int` oracle. -/
+theorem int_split_mul_exact (a b : List Nat) (ha : WF a) (hb : WF b) (hna : a ≠ []) (hnb : b ≠ []) :
+    ExactPair ((intSplitMul splitMul a b).1, (intSplitMul splitMul a b).2.1) a.length b.length
+      (absVal a * absVal b) ∧
+    (intSplitMul splitMul a b).2.2 = mask (isNeg a != isNeg b) ∧
+    (toInt a * toInt b).natAbs = absVal a * absVal b := by
+  have ⟨sa, wa, la, va⟩ := intAbsSign_spec a ha hna
+  have ⟨sb, wb, lb, vb⟩ := intAbsSign_spec b hb hnb
+  have h := split_mul_exact _ _ wa wb
+  rw [la, lb, va, vb] at h
+  refine ⟨h, ?_, ?_⟩
+  · show (intAbsSign a).2 ^^^ (intAbsSign b).2 = _
+    rw [sa, sb, mask_xor]
+  · rw [Int.natAbs_mul, toInt_natAbs a ha, toInt_natAbs b hb]
 
 /-! ### non-vacuity -/
 
